@@ -128,7 +128,7 @@ def native_replay(hb, ll, entry, inputs, outdir, tag):
     extra = []
     for c in sp.get('native_c', []):
         extra.append(os.path.join(hb.dir, c) if os.path.exists(os.path.join(hb.dir, c)) else os.path.join(P.RT, c))
-    cmd = ['clang++-14', '-O1', '-w', '-fsanitize=address', '-x', 'ir', rll, '-x', 'c', drv, os.path.join(P.RT, 'replay_rt.c')] + sum([['-x', 'c', e] for e in extra], []) + ['-lgmpxx', '-lgmp', '-lpthread', '-o', exe]
+    cmd = ['clang++-14', '-O1', '-w', '-fsanitize=address', '-x', 'ir', rll, '-x', 'c', drv, os.path.join(P.RT, 'replay_rt.c')] + sum([['-x', 'c', e] for e in extra], []) + ['-lgmpxx', '-lgmp', '-lpthread', '-no-pie', '-Wl,--unresolved-symbols=ignore-all', '-o', exe]
     rc, so, se, dt = P.run(cmd, timeout=900)
     if rc != 0:
         return 'unavailable', [], 'native link failed: ' + se[-1500:]
